@@ -112,6 +112,10 @@ COMBINATORS = [
     (r"^<std::option::Option<.*> as std::ops::Try>::branch$", OPT, {"Some": ("wrap", CF, "Continue", ("payload",)), "None": ("wrap", CF, "Break", ("wrap", OPT, "None", None))}),
     (r"^<std::result::Result<.*> as std::ops::Try>::branch$", RES, {"Ok": ("wrap", CF, "Continue", ("payload",)), "Err": ("wrap", CF, "Break", ("wrap", RES, "Err", ("payload",)))}),
     (r"^<std::option::Option<.*> as std::ops::FromResidual<.*>>::from_residual$", None, ("wrap", OPT, "None", None)),
+    (r"^<std::result::Result<.*> as std::ops::FromResidual<std::result::Result<.*>>>::from_residual$", RES,
+     {"Ok": ("wrap", RES, "Ok", ("payload",)), "Err": ("wrap", RES, "Err", ("payload",))}),
+    (r"^<std::task::Poll<std::result::Result<.*>> as std::ops::FromResidual<std::result::Result<.*>>>::from_residual$", RES,
+     {"Ok": ("wrap", POLL, "Ready", ("wrap", RES, "Ok", ("payload",))), "Err": ("wrap", POLL, "Ready", ("wrap", RES, "Err", ("payload",)))}),
 ]
 
 
